@@ -100,8 +100,12 @@ Sites == <<
         Seq2(Call("Invoke", <<P(Ref("Wrap")), P(A1)>>), Opt(Call("Invoke", <<Kw("x", B1), Kw("F", Ref("Twice"))>>))),
   (* 40 a dict with unhashable (list) values as argument value *)
         Let("t", Apply(Star(Seq2(AnyAB, Star(Str(<<comma>>)))), Py(<<"fn", "dict">>)),
-            Right(Str(<<lpar>>), Call("Val", <<P(Ref("t"))>>)))
+            Right(Str(<<lpar>>), Call("Val", <<P(Ref("t"))>>))),
+  (* 41, 42 (bytes mode): byte literals as arguments, used as parsers inside the template *)
+        Call("Wrap", <<P(<<"byte", a>>)>>),
+        Seq2(Call("Twice", <<Kw("p", <<"byte", b>>)>>), Opt(Call("Wrap", <<P(Ch2(<<"byte", a>>, B1))>>)))
 >>
+BytesSites == {41, 42}
 
 Grammar(i) == [rules |-> ("start" :> Rule(Sites[i])) @@ Templates, ign |-> <<>>, start |-> "start"]
 
@@ -136,7 +140,8 @@ Step == /\ ~done
         /\ done' = TRUE
         /\ UNCHANGED <<site, named>>
         /\ LET G == Grammar(site)
-               cfg == IF named THEN [prop |-> "C06", name |-> "vg_c06"] ELSE [prop |-> "C06"] IN
+               cfg0 == IF named THEN [prop |-> "C06", name |-> "vg_c06"] ELSE [prop |-> "C06"]
+               cfg == IF site \in BytesSites THEN cfg0 @@ [bytes |-> TRUE] ELSE cfg0 IN
            IF site = 1
            THEN PrintT(ToJson([g |-> G, cfg |-> cfg,
                                runs |-> [k \in 1..Len(Texts) |-> Run(G, "start", Texts[k], 0)] \o CurryRuns(G)]))
